@@ -19,6 +19,59 @@ def bed_fields(d, arg, **kw):
         return {"raise": True}
 
 
+def check_model(ctx, m, e, fa):
+    from gffutils import convert
+    from gffutils.feature import Feature
+    case = {"model": m, "lines": I.model_lines(m)}
+    try:
+        d = I.build(m)
+        # len
+        for f, n in zip(d.all_features(), e["lens"]):
+            if len(f) != n:
+                ctx.violation(case, "len", {"id": f.id, "observed": len(f), "expected": n})
+        # bed12: id form and Feature form
+        for b in e["bed"]:
+            tid = dec(b["id"])
+            if not b["decl"]:
+                ctx.violation(case, "model:bed12_decl", {"id": tid})
+            for form, arg in (("id", tid), ("feature", d[tid])):
+                try:
+                    got = bed_fields(d, arg)
+                except Exception as ex:  # noqa
+                    ctx.violation(case, "bed12_%s_raised:%s" % (form, type(ex).__name__), {"id": tid, "message": str(ex)[:120]})
+                    continue
+                if got != b["r"]:
+                    which = "bed12_valueerror" if got["raise"] != b["r"]["raise"] else "bed12_fields"
+                    ctx.violation(case, "%s_%s" % (which, form), {"id": tid, "observed": [dec(x) for x in got.get("fields", [])],
+                                                                      "expected": [dec(x) for x in b["r"].get("fields", [])]})
+            # the alternative converter agrees on the block geometry whenever the blocks span the transcript
+            if not b["r"]["raise"]:
+                t = d[tid]
+                kids = list(d.children(t, featuretype="exon", order_by="start"))
+                if kids:
+                    alt = convert.to_bed12(t, d).rstrip("\n").split("\t")
+                    f12 = [dec(x) for x in b["r"]["fields"]]
+                    if [alt[1], alt[2], alt[9], alt[10], alt[11]] != [f12[1], f12[2], f12[9], f12[10], f12[11]]:
+                        ctx.violation(case, "to_bed12_geometry", {"id": tid, "observed": alt, "expected": f12})
+        # sequence through pyfaidx
+        with open(fa, "w") as fh:
+            fh.write(">chrR\n" + dec(m["ref"]) + "\n")
+        for p in (fa + ".fai",):
+            if os.path.exists(p):
+                os.unlink(p)
+        for q, want in zip(m["queries"], e["seqs"]):
+            f = Feature(seqid="chrR", start=q["s"], end=q["e"], strand=dec(q["strand"]))
+            got = f.sequence(fa, use_strand=q["use"])
+            if got != dec(want):
+                ctx.violation(case, "sequence", {"query": q, "observed": got, "expected": dec(want)})
+            if len(got) != len(f):
+                ctx.violation(case, "sequence_length", {"query": q})
+    except Exception as ex:  # noqa
+        ctx.violation(case, "raised:" + type(ex).__name__, {"message": str(ex)[:200]})
+    nt = any(len(b["r"].get("fields", [])) == 12 and dec(b["r"]["fields"][9]) != "1" for b in e["bed"]) or dec(m["feats"][0]["strand"]) == "-" or bool(e["bed"])
+    ctx.count(I.model_lines(m), nt)
+
+
 def run(ctx):
     thorough = ctx.tier == "thorough"
     ctx.rule = ("Model (MC_Bed): every transcript over positions 1..7 with 0-2 exons and 0-1 CDS in every placement, either strand: Bed12_Alg satisfies Bed12_Decl (twelve fields, "
@@ -36,54 +89,7 @@ def run(ctx):
     exp = I.oracle(ctx, models)
     fa = ctx.path("ref.fa")
     for k, (m, e) in enumerate(zip(models, exp)):
-        case = {"model": m, "lines": I.model_lines(m)}
-        try:
-            d = I.build(m)
-            # len
-            for f, n in zip(d.all_features(), e["lens"]):
-                if len(f) != n:
-                    ctx.violation(case, "len", {"id": f.id, "observed": len(f), "expected": n})
-            # bed12: id form and Feature form
-            for b in e["bed"]:
-                tid = dec(b["id"])
-                if not b["decl"]:
-                    ctx.violation(case, "model:bed12_decl", {"id": tid})
-                for form, arg in (("id", tid), ("feature", d[tid])):
-                    try:
-                        got = bed_fields(d, arg)
-                    except Exception as ex:  # noqa
-                        ctx.violation(case, "bed12_%s_raised:%s" % (form, type(ex).__name__), {"id": tid, "message": str(ex)[:120]})
-                        continue
-                    if got != b["r"]:
-                        which = "bed12_valueerror" if got["raise"] != b["r"]["raise"] else "bed12_fields"
-                        ctx.violation(case, "%s_%s" % (which, form), {"id": tid, "observed": [dec(x) for x in got.get("fields", [])],
-                                                                          "expected": [dec(x) for x in b["r"].get("fields", [])]})
-                # the alternative converter agrees on the block geometry whenever the blocks span the transcript
-                if not b["r"]["raise"]:
-                    t = d[tid]
-                    kids = list(d.children(t, featuretype="exon", order_by="start"))
-                    if kids:
-                        alt = convert.to_bed12(t, d).rstrip("\n").split("\t")
-                        f12 = [dec(x) for x in b["r"]["fields"]]
-                        if [alt[1], alt[2], alt[9], alt[10], alt[11]] != [f12[1], f12[2], f12[9], f12[10], f12[11]]:
-                            ctx.violation(case, "to_bed12_geometry", {"id": tid, "observed": alt, "expected": f12})
-            # sequence through pyfaidx
-            with open(fa, "w") as fh:
-                fh.write(">chrR\n" + dec(m["ref"]) + "\n")
-            for p in (fa + ".fai",):
-                if os.path.exists(p):
-                    os.unlink(p)
-            for q, want in zip(m["queries"], e["seqs"]):
-                f = Feature(seqid="chrR", start=q["s"], end=q["e"], strand=dec(q["strand"]))
-                got = f.sequence(fa, use_strand=q["use"])
-                if got != dec(want):
-                    ctx.violation(case, "sequence", {"query": q, "observed": got, "expected": dec(want)})
-                if len(got) != len(f):
-                    ctx.violation(case, "sequence_length", {"query": q})
-        except Exception as ex:  # noqa
-            ctx.violation(case, "raised:" + type(ex).__name__, {"message": str(ex)[:200]})
-        nt = any(len(b["r"].get("fields", [])) == 12 and dec(b["r"]["fields"][9]) != "1" for b in e["bed"]) or dec(m["feats"][0]["strand"]) == "-" or bool(e["bed"])
-        ctx.count(I.model_lines(m), nt)
+        check_model(ctx, m, e, fa)
     ctx.traces += len(models)
     ctx.sample({"model": I.model_lines(models[0]), "expected_bed12": [[dec(x) for x in b["r"].get("fields", [])] for b in exp[0]["bed"]],
                 "reference": dec(models[0]["ref"]), "queries": models[0]["queries"][:2], "expected_sequences": [dec(s) for s in exp[0]["seqs"][:2]]})
@@ -97,12 +103,6 @@ def replay(ctx, rec):
         return True
     m = c["model"]
     e = I.oracle(ctx, [m])[0]
-    d = I.build(m)
-    for b in e["bed"]:
-        for arg in (dec(b["id"]), d[dec(b["id"])]):
-            try:
-                if bed_fields(d, arg) != b["r"]:
-                    return True
-            except Exception:  # noqa
-                return True
-    return False
+    n0 = len(ctx.violations)
+    check_model(ctx, m, e, ctx.path("ref.fa"))
+    return len(ctx.violations) > n0
